@@ -13,6 +13,9 @@ SAN=none; TD=$ROOT/fuzz/target
 [ "$ID" = C11 ] && { SAN=address; TD=$ROOT/fuzz/target-asan; }
 [ -f "$ROOT/fuzz/fuzz_targets/$T.rs" ] || { echo "NOTE no fuzz target for $ID"; exit 2; }
 export CARGO_NET_OFFLINE=true
+# PROCS independent processes already occupy the cores: keep each process's rayon pool small (the
+# persistent tree recomputes batches in parallel; 16 processes x 16 workers only fight each other)
+export RAYON_NUM_THREADS=${RAYON_NUM_THREADS:-2}
 [ -n "${VERIF_FUZZ_NOBUILD:-}" ] || ( cd $ROOT/harness && RUSTFLAGS="--cfg zerokit_verif" cargo +nightly fuzz build --fuzz-dir $ROOT/fuzz --target-dir $TD -s $SAN $T > $ROOT/fuzz/build-$T.log 2>&1 ) || {
   echo "NOTE fuzz stage unavailable for $ID: build failed (see fuzz/build-$T.log)"; tail -5 $ROOT/fuzz/build-$T.log; exit 2; }
 BIN=$TD/x86_64-unknown-linux-gnu/release/$T
